@@ -47,35 +47,25 @@ func VerifC08_w2() {
 	if len(w.encoded) != 1 {
 		return
 	}
-	// wire: under the parent's default view the nested value is rendered with
-	// the overriding view (c and d), under tiny with the type-level view (d)
-	var wireC *string
-	var wireD *int
-	hasB := false
-	switch b := w.encoded[0].(type) {
-	case *server.DynResponseBody:
-		verifAssert("w2:wire-body-matches-view", dynamic && view == "default")
-		if b.B != nil {
-			hasB, wireC, wireD = true, &b.B.C, &b.B.D
-		}
-	case *server.DynResponseBodyTiny:
-		verifAssert("w2:wire-body-matches-view", dynamic && view == "tiny")
-		if b.B != nil {
-			hasB, wireD = true, &b.B.D
-		}
-	case *server.FixdResponseBody:
-		verifAssert("w2:wire-body-matches-view", !dynamic)
-		if b.B != nil {
-			hasB, wireC, wireD = true, &b.B.C, &b.B.D
-		}
-	default:
-		verifAssert("w2:known-body-type", false)
+	// wire document, looked at through its JSON member names only: under the
+	// parent's default view the nested value is rendered with the overriding
+	// view (c and d), under tiny with the type-level view (d only)
+	var doc struct {
+		A *string `json:"a"`
+		B *struct {
+			C *string `json:"c"`
+			D *int    `json:"d"`
+		} `json:"b"`
 	}
-	verifAssert("w2:wire:b-presence", hasB == (want.B != nil))
-	if hasB && want.B != nil {
-		verifAssert("w2:wire:b.d", wireD != nil && *wireD == want.B.D)
+	verifAssert("w2:wire-document", verifJSONCopy(&doc, w.encoded[0]) == nil)
+	verifAssert("w2:wire:a", doc.A != nil && *doc.A == want.A)
+	verifAssert("w2:wire:b-presence", (doc.B != nil) == (want.B != nil))
+	if doc.B != nil && want.B != nil {
+		verifAssert("w2:wire:b.d", doc.B.D != nil && *doc.B.D == want.B.D)
 		if view == "default" {
-			verifAssert("w2:wire:b.c-under-overriding-view", wireC != nil && *wireC == want.B.C)
+			verifAssert("w2:wire:b.c-under-overriding-view", doc.B.C != nil && *doc.B.C == want.B.C)
+		} else {
+			verifAssert("w2:wire:b.c-absent-under-tiny", doc.B.C == nil)
 		}
 	}
 	resp := &http.Response{StatusCode: w.status, Header: w.h, Body: io.NopCloser(strings.NewReader(""))}
